@@ -296,3 +296,142 @@ Example ex_parameters :
   /\ option_map (fun s => look_params s [ord (2018, 6, 30)%Z; ord (2018, 7, 1)%Z]) (sys_at ex_world 1)
      = Some (OL [OL [OZ 4; OZ 40]]).
 Proof. split; vm_compute; reflexivity. Qed.
+
+(** ** F20 made exact (appended): where the machine departs from the meaning, and where not
+
+    [in_force y0 x k m]: some formula of x is in force on the first of month m of year
+    y0 + k and x has not ended before it.  A state [{| cache := c; stack := []; invalid := [] |}]
+    is a simulation between two requests ([init inp] is the one with c = inp).
+    [january_known y0 ny v x k a c]: cache c holds a for (v, January) and, for every other
+    month of the year, nothing or the January value. *)
+
+(** (1) F20 characterised.  max_loops = 1 (the default of Simulation), the annualised rendering of
+    ANY month variable x, a month m >= 2 of the window with a formula in force, neither that
+    month nor January in the cache.  The annualised formula asks for the variable at January;
+    that request is the second frame of the variable on the stack, the spiral test answers the
+    default array and marks both frames invalid; the month's value (the default, cast to the
+    type) is put in the cache and removed again by the purge that ends the request.  So: the
+    answer is the default - not the January value -, nothing is stored for the month nor for
+    January, the stack is empty and nothing stays marked.  The same request again gives the
+    same answer. *)
+Theorem annualised_machine_refuted_when_january_unknown : forall y0 ny s v x s' k m pp c fuel,
+  nth_error (s_vars s) v = Some x -> apply_var_mod s (Annualize v) = Ok s' -> sv_unit x = Month ->
+  (1 <= y0)%Z -> k < ny -> (2 <= m <= 12)%Z -> in_force y0 x k m -> s_loops s = 1 ->
+  lookup (v, month_of (y0 + Z.of_nat k) m) c = None -> lookup (v, jan (y0 + Z.of_nat k)) c = None ->
+  let x' := to_var y0 ny v (annualized x) in
+  let r := calc (S (S fuel)) (to_sys y0 ny s') pp {| cache := c; stack := []; invalid := [] |} v
+             (month_of (y0 + Z.of_nat k) m) in
+  snd r = Ok (cast x' (default_array pp x'))
+  /\ (sv_type x <> TBool -> snd r = Ok (repeat (sv_default x) (count_of pp (sv_ent x))))
+  /\ lookup (v, month_of (y0 + Z.of_nat k) m) (cache (fst r)) = None
+  /\ lookup (v, jan (y0 + Z.of_nat k)) (cache (fst r)) = None
+  /\ stack (fst r) = [] /\ invalid (fst r) = [].
+Proof. exact am_f20_summary. Qed.
+Print Assumptions annualised_machine_refuted_when_january_unknown.
+
+(** the state after that request, exactly *)
+Theorem annualised_machine_f20_state : forall y0 ny s v x s' k,
+  nth_error (s_vars s) v = Some x -> apply_var_mod s (Annualize v) = Ok s' -> sv_unit x = Month ->
+  (1 <= y0)%Z -> k < ny ->
+  forall m pp c fuel, (2 <= m <= 12)%Z -> in_force y0 x k m -> s_loops s = 1 ->
+  lookup (v, month_of (y0 + Z.of_nat k) m) c = None -> lookup (v, jan (y0 + Z.of_nat k)) c = None ->
+  let st := {| cache := c; stack := []; invalid := [] |} in
+  let d := cast (to_var y0 ny v (annualized x)) (default_array pp (to_var y0 ny v (annualized x))) in
+  calc (S (S fuel)) (to_sys y0 ny s') pp st v (month_of (y0 + Z.of_nat k) m)
+  = ({| cache := delete_one (to_sys y0 ny s') (v, month_of (y0 + Z.of_nat k) m)
+                   (delete_one (to_sys y0 ny s') (v, jan (y0 + Z.of_nat k))
+                      (cache (put_in_cache (to_var y0 ny v (annualized x)) v (month_of (y0 + Z.of_nat k) m) d st)));
+        stack := []; invalid := [] |}, Ok d).
+Proof. exact am_f20. Qed.
+Print Assumptions annualised_machine_f20_state.
+
+(** (2) Once January of year y is known, any sequence of requests for months of y (January
+    included, any order, repetitions allowed) answers the January value a (cast to the type
+    for the other months), and January stays known. *)
+Theorem annualised_machine_after_january_partial : forall y0 ny s v x s' k,
+  nth_error (s_vars s) v = Some x -> apply_var_mod s (Annualize v) = Ok s' -> sv_unit x = Month ->
+  (1 <= y0)%Z -> k < ny ->
+  forall pp fuel a,
+  (forall m', (2 <= m' <= 12)%Z -> in_force y0 x k m') -> 1 <= s_loops s ->
+  forall ms c, Forall (fun m => (1 <= m <= 12)%Z) ms -> january_known y0 ny v x k a c ->
+  snd (run (S (S fuel)) (to_sys y0 ny s') pp {| cache := c; stack := []; invalid := [] |}
+         (map (fun m => RCalc v (month_of (y0 + Z.of_nat k) m)) ms))
+  = map (fun m => AVal (if (m =? 1)%Z then a else cast (to_var y0 ny v (annualized x)) a)) ms.
+Proof. exact am_sequence. Qed.
+Print Assumptions annualised_machine_after_january_partial.
+
+(** one request, with the state it leaves *)
+Theorem annualised_machine_step_keeps_january : forall y0 ny s v x s' k,
+  nth_error (s_vars s) v = Some x -> apply_var_mod s (Annualize v) = Ok s' -> sv_unit x = Month ->
+  (1 <= y0)%Z -> k < ny ->
+  forall m pp c fuel a, (1 <= m <= 12)%Z -> (forall m', (2 <= m' <= 12)%Z -> in_force y0 x k m') -> 1 <= s_loops s ->
+  january_known y0 ny v x k a c ->
+  let r := calc (S (S fuel)) (to_sys y0 ny s') pp {| cache := c; stack := []; invalid := [] |} v
+             (month_of (y0 + Z.of_nat k) m) in
+  snd r = Ok (if (m =? 1)%Z then a else cast (to_var y0 ny v (annualized x)) a)
+  /\ stack (fst r) = [] /\ invalid (fst r) = [] /\ january_known y0 ny v x k a (cache (fst r)).
+Proof. exact am_step. Qed.
+Print Assumptions annualised_machine_step_keeps_january.
+
+(** The full statement starts from the January REQUEST rather than from a cache that holds
+    January.  Missing for it: that on a ranked base a successful request for (v, January) in
+    the derived system leaves its answer in the cache and marks nothing - the C01 invariant
+    (EngineProofs.calc_refines) is proved for ranked systems only and the derived system is
+    not ranked (v reads itself); it would have to be transported from s to s' for the
+    variables below v.  The examples [ex_after_january] below run exactly this sequence. *)
+Definition annualised_machine_after_january_statement : Prop :=
+  forall y0 ny s v x s' k pp inp fuel a st1 ms,
+  nth_error (s_vars s) v = Some x -> apply_var_mod s (Annualize v) = Ok s' -> sv_unit x = Month ->
+  (1 <= y0)%Z -> k < ny -> ranked (to_sys y0 ny s) = true -> 1 <= s_loops s ->
+  has_wrapped (sv_formulas x) = false -> sv_neutral x = false -> sv_nostore x = false ->
+  (forall m', (1 <= m' <= 12)%Z -> in_force y0 x k m') ->
+  calc (S (S fuel)) (to_sys y0 ny s') pp (init inp) v (jan (y0 + Z.of_nat k)) = (st1, Ok a) ->
+  Forall (fun m => (1 <= m <= 12)%Z) ms ->
+  snd (run (S (S fuel)) (to_sys y0 ny s') pp st1 (map (fun m => RCalc v (month_of (y0 + Z.of_nat k) m)) ms))
+  = map (fun m => AVal (if (m =? 1)%Z then a else cast (to_var y0 ny v (annualized x)) a)) ms.
+
+(** (3) Whatever max_loops is, the month's answer is the answer of the January request made with
+    the month's frame on the stack.  With max_loops = 1 that request is cut (theorem 1); with
+    max_loops >= 2 the cut needs two earlier frames of the variable, the January formula runs
+    and the month yields the January value ([ex_loops2]). *)
+Theorem annualised_month_delegates_to_january : forall y0 ny s v x s' k,
+  nth_error (s_vars s) v = Some x -> apply_var_mod s (Annualize v) = Ok s' -> sv_unit x = Month ->
+  (1 <= y0)%Z -> k < ny ->
+  forall m pp c fuel, (2 <= m <= 12)%Z -> in_force y0 x k m -> 1 <= s_loops s ->
+  lookup (v, month_of (y0 + Z.of_nat k) m) c = None ->
+  let st := {| cache := c; stack := []; invalid := [] |} in
+  snd (calc (S (S fuel)) (to_sys y0 ny s') pp st v (month_of (y0 + Z.of_nat k) m))
+  = rmap (cast (to_var y0 ny v (annualized x)))
+         (snd (calc (S fuel) (to_sys y0 ny s') pp (push (v, month_of (y0 + Z.of_nat k) m) st) v (jan (y0 + Z.of_nat k)))).
+Proof. exact am_delegates. Qed.
+Print Assumptions annualised_month_delegates_to_january.
+
+From Coq Require Import Lia.
+
+(** Non-vacuity.  v1 of [ex_base] (2018 = 1996 + 22): a formula is in force in every month *)
+Example ex_in_force : forall m, (1 <= m <= 12)%Z ->
+  exists x, nth_error (s_vars (of_sys ex_base)) 1 = Some x /\ sv_unit x = Month /\ in_force 1996 x 22 m.
+Proof.
+  intros m Hm. eexists. split; [reflexivity|split; [reflexivity|]]. split; [|exact I].
+  assert (H : (m = 1 \/ m = 2 \/ m = 3 \/ m = 4 \/ m = 5 \/ m = 6 \/ m = 7 \/ m = 8 \/ m = 9 \/ m = 10
+              \/ m = 11 \/ m = 12)%Z) by lia.
+  repeat (destruct H as [->|H]; [do 2 eexists; vm_compute; reflexivity|]). subst. do 2 eexists; vm_compute; reflexivity.
+Qed.
+
+(** January first, then all twelve months in a scrambled order, on the reform of [ex_world]:
+    every month yields the January value (10 + 1, 20 + 1) *)
+Example ex_after_january :
+  eval_fresh 1996 30 ex_world 1 ex_pop [RSetInput 0 (jan 2018) [10; 20]%Z]
+    (RCalc 1 (jan 2018) :: map (fun m => RCalc 1 (month_of 2018 m)) [7; 3; 12; 1; 5; 2; 9; 4; 11; 6; 8; 10; 3]%Z)
+  = OL (ONone :: repeat (OL [OZ 11; OZ 21]) 14).
+Proof. vm_compute. reflexivity. Qed.
+
+(** the same base with max_loops = 2: March asked first on a fresh simulation yields the
+    January value - F20 is the cut of max_loops = 1 *)
+Definition ex_base2 : sys :=
+  {| vars := vars ex_base; params := params ex_base; switches := []; max_loops := 2 |}.
+Example ex_loops2 :
+  eval_fresh 1996 30 (run_dops false (initial (of_sys ex_base2)) [DReform 0 [Annualize 1]]) 1 ex_pop ex_inputs
+    [RCalc 1 mar18; RCalc 1 (jan 2018)]
+  = OL [ONone; ONone; OL [OZ 11; OZ 21]; OL [OZ 11; OZ 21]].
+Proof. vm_compute. reflexivity. Qed.
